@@ -23,14 +23,12 @@ def check(ctx):
     # property needs; the filter is an optimisation to opt into
     run.rule('UBF', 'UPDATE-LOOKUP: the default of the dumper option use_bloom_filter is False')
     ini20 = ctx.N(sd.methods['__init__'])
-    ubf = [c_ for c_ in ast.walk(ini20.node) if isinstance(c_, ast.Call) and isinstance(c_.func, ast.Attribute) and c_.func.attr == 'get'
-           and c_.args and isinstance(c_.args[0], ast.Constant) and c_.args[0].value == 'use_bloom_filter'] + \
-          [p_ for p_ in ast.walk(ini20.node) if isinstance(p_, ast.Tuple) and len(p_.elts) == 2 and isinstance(p_.elts[0], ast.Constant)
-           and p_.elts[0].value == 'use_bloom_filter']
+    from rules import tables as _t20
+    ubf = _t20.option_defaults(ini20.node, 'use_bloom_filter')
     if len(ubf) != 1:
         raise AnalysisError('SQLDumper.__init__: the default of use_bloom_filter was not found')
-    dflt20 = (ubf[0].args[1] if len(ubf[0].args) > 1 else None) if isinstance(ubf[0], ast.Call) else ubf[0].elts[1]
-    run.check(isinstance(dflt20, ast.Constant) and dflt20.value is False, 'UBF', where(repo, ubf[0]), sd.qualname,
+    dflt20 = ubf[0]
+    run.check(isinstance(dflt20, ast.Constant) and dflt20.value is False, 'UBF', ini20.where, sd.qualname,
               "options.get('use_bloom_filter', False)",
               'update mode asks the storage writer\'s bloom filter by default: for a key column of type number / any a key that is '
               'in the table already is taken for new and inserted a second time')
